@@ -193,6 +193,7 @@ def run(rep):
     # what a command reads on standard input across ACTION SEQUENCES (rewrites, renames, copies before / between / after the commands):
     # tools/execseq.py, shared with C11
     seq_cov = execseq.stage(rep, tools, W, focus='all')
+    import isolation; rep.coverage['isolation'] = isolation.stage(rep, tools, 'C13')     # nothing leaks from one message / maildir / rule into the next (tools/isolation.py)
     if corr_bad and not rep.violations:
         rep.violation({'obligation': 'correspondence: an exec scenario does not follow Model.mainP', 'disagreements': len(corr_bad), 'examples': corr_bad[:6]}, False)
     vlib.lean_conclude(rep)
@@ -215,6 +216,9 @@ def run(rep):
 
 
 def replay(rep, path):
+    import isolation
+    if isolation.replay_file(rep, path):
+        return
     import json
     j = json.load(open(path))
     print(json.dumps(j, indent=1)[:3000])
